@@ -75,3 +75,59 @@ fn yaml_reader_input_uses_reencoder() {
 	assert!(unsafe { READER_PATH } && !unsafe { FAST_PATH });
 	std::mem::forget(r);
 }
+
+// ---- U-YML framing: every document is introduced by "---\n" (C03); writer faults surface (C12) ----------
+static mut WLOG: [u8; 8] = [0; 8];
+static mut WPOS: usize = 0;
+static mut BODY_FAILS: bool = false;
+static mut WRITER_FAILS_AT: usize = 99;
+fn wlog(b: u8) -> io::Result<()> {
+	unsafe {
+		if WPOS >= WRITER_FAILS_AT { return Err(io::ErrorKind::StorageFull.into()); }
+		if WPOS < 8 { WLOG[WPOS] = b; }
+		WPOS += 1;
+		Ok(())
+	}
+}
+struct LogW;
+impl Write for LogW {
+	fn write(&mut self, buf: &[u8]) -> io::Result<usize> { let mut i = 0; while i < buf.len() { wlog(buf[i])?; i += 1; } Ok(buf.len()) }
+	fn write_all(&mut self, buf: &[u8]) -> io::Result<()> { let mut i = 0; while i < buf.len() { wlog(buf[i])?; i += 1; } Ok(()) }
+	fn write_fmt(&mut self, args: std::fmt::Arguments<'_>) -> io::Result<()> {
+		match args.as_str() { Some(s) => self.write_all(s.as_bytes()), None => { assert!(false, "framing text is not a literal"); Ok(()) } }
+	}
+	fn flush(&mut self) -> io::Result<()> { Ok(()) }
+}
+static mut BODY_CALLS: usize = 0;
+static mut BODY_AT: usize = 99;
+fn yaml_to_writer_stub<W: Write, T: ?Sized + ser::Serialize>(mut w: W, _value: &T) -> Result<(), serde_yaml::Error> {
+	unsafe { BODY_CALLS += 1; BODY_AT = WPOS; }
+	if unsafe { BODY_FAILS } { return Err(<serde_yaml::Error as ser::Error>::custom("x")); }
+	match w.write_all(b"D") { Ok(()) => Ok(()), Err(e) => Err(<serde_yaml::Error as ser::Error>::custom("w")).map_err(|x: serde_yaml::Error| { std::mem::forget(e); x }) }
+}
+
+fn yaml_framing_value(fail_at: usize) {
+	unsafe { WRITER_FAILS_AT = fail_at; }
+	let mut out = Output::new(LogW);
+	let r = crate::Output::transcode_value(&mut out, 7u8);
+	let ok = r.is_ok();
+	std::mem::forget(r);
+	unsafe {
+		if fail_at >= 5 {
+			assert!(ok && WPOS == 5);
+			assert!(WLOG[0] == b'-' && WLOG[1] == b'-' && WLOG[2] == b'-' && WLOG[3] == b'\n' && WLOG[4] == b'D', "YAML output is '---' + newline, then the document");
+			assert!(BODY_CALLS == 1 && BODY_AT == 4, "the document is written after its '---' line");
+		} else {
+			assert!(!ok, "a writer fault was swallowed");
+			if fail_at < 4 { assert!(BODY_CALLS == 0, "document body written although its '---' line could not be"); }
+		}
+	}
+}
+#[kani::proof]
+#[kani::unwind(6)]
+#[kani::stub(serde_yaml::to_writer, yaml_to_writer_stub)]
+fn yaml_output_value_framing_ok() { yaml_framing_value(99); }
+#[kani::proof]
+#[kani::unwind(6)]
+#[kani::stub(serde_yaml::to_writer, yaml_to_writer_stub)]
+fn yaml_output_value_framing_separator_write_fails() { yaml_framing_value(2); }
